@@ -1,0 +1,47 @@
+//go:build verif
+
+// Contracts for gocv (see /verif/DESIGN.md). Comment-only file: takes no part in any build.
+
+package wallet
+
+//@ pure func isValidPassWord
+//@ pure func (*github.com/33cn/chain33/wallet/common.Store).VerifyPasswordHash
+//@ pure func (*github.com/33cn/chain33/wallet/common.Store).HasSeed
+//@ pure func (*Wallet).isTicketLocked
+//@ pure func (*Wallet).getPrivKeyFromStore
+//@ pure func github.com/33cn/chain33/common.ToHex
+
+// ---- C38: the wallet appears unlocked only after the password was verified -----------------------
+// The flag isWalletLocked is read without the wallet mutex (IsWalletLocked, GetWalletStatus), so
+// the rule is stated on every write that can install 0, not on final states.
+
+//@ func (*Wallet).IsWalletLocked [C38]
+//@   frame nothing
+//@   ensures result <==> wallet.isWalletLocked != 0
+
+// unlocking: the flag is cleared only on a path on which the given password was accepted
+//@ func (*Wallet).ProcWalletUnLock [C38]
+//@   opt safety=assumed
+//@   assert@call CompareAndSwapInt32: (len(old(wallet.Password)) == 0 && old(wallet.EncryptFlag) == 1 ==> called(VerifyPasswordHash) && ret(VerifyPasswordHash)) && (len(old(wallet.Password)) != 0 ==> WalletUnLock.Passwd == old(wallet.Password))
+//@   ensures result != nil ==> wallet.isWalletLocked == old(wallet.isWalletLocked)
+
+// changing the password: the temporary unlock must not happen before the old password is verified,
+// and a failed change leaves the lock state as it was
+//@ func (*Wallet).ProcWalletSetPasswd [C38]
+//@   opt safety=assumed overflow=assumed
+//@   requires wallet.isWalletLocked == 0 || wallet.isWalletLocked == 1
+//@   assert@call CompareAndSwapInt32#0: (len(wallet.Password) == 0 && wallet.EncryptFlag == 1 ==> called(VerifyPasswordHash) && ret(VerifyPasswordHash)) && (len(wallet.Password) != 0 ==> Passwd.OldPass == wallet.Password)
+
+// locking always succeeds in setting the flag
+//@ func (*Wallet).ProcWalletLock [C38]
+//@   opt safety=assumed
+//@   requires wallet.isWalletLocked == 0 || wallet.isWalletLocked == 1
+
+// while locked, no stored private key is returned
+//@ func (*Wallet).checkWalletStatus [C38]
+//@   opt safety=assumed
+//@   frame nothing
+//@   ensures wallet.isWalletLocked != 0 ==> !result0 && result1 != nil
+//@ func (*Wallet).ProcDumpPrivkey [C38]
+//@   opt safety=assumed
+//@   ensures old(wallet.isWalletLocked) != 0 ==> result1 != nil && !called(getPrivKeyFromStore)
